@@ -63,6 +63,8 @@ type GeneratorOutput struct {
 	Options   GeneratorOptions  `json:"meta"`
 	SourceMap *parser.SourceMap `json:"sourceMap"`
 	Literals  []string          `json:"literals"`
+	// goCodeHash is a hash of the generated Go code without the contents of the literals.
+	goCodeHash string
 }
 
 type GeneratorOptions struct {
@@ -103,6 +105,11 @@ func HasChanged(previous, updated GeneratorOutput) bool {
 			return true
 		}
 	}
+	// The same expressions can be used by different generated code, e.g. when an attribute
+	// is renamed from title to style, so compare the Go code around the literals too.
+	if previous.goCodeHash != updated.goCodeHash {
+		return true
+	}
 	return false
 }
 
@@ -126,6 +133,7 @@ func Generate(template parser.TemplateFile, w io.Writer, opts ...GenerateOpt) (o
 	op.Options = g.options
 	op.SourceMap = g.sourceMap
 	op.Literals = g.w.Literals
+	op.goCodeHash = g.w.SkeletonHash()
 	return op, nil
 }
 
